@@ -132,6 +132,9 @@ Calls(s) ==
   \cup (IF HasNext /\ s.blockDone /\ s.h = H THEN {[call |-> "Reset", arg |-> [ts |-> TipTs(H + 1)]]} ELSE {})
   \cup (IF "tx" \in Family THEN {[call |-> "OnTransaction", arg |-> [tx |-> t]] : t \in {"tA", "tB"}} ELSE {})
   \cup (IF DynOn THEN {[call |-> "OnNewTransaction", arg |-> [none |-> 0]]} ELSE {})
+  \* family "flip": the application's WatchOnly callback starts answering TRUE at any moment (the validator is demoted to an
+  \* observer while it runs); not a library call
+  \cup (IF "flip" \in Family /\ ~s.cfg.watch THEN {[call |-> "SetWatch", arg |-> [none |-> 0]]} ELSE {})
 
 Strip(o) == [o EXCEPT !.out = <<>>, !.env = [now |-> 0], !.fp = 0, !.fb = 0]
 
@@ -154,7 +157,10 @@ Init == \E o \in Node!Api(Node!Blank(Cfg), "Start", [ts |-> Ledger.tipTs], Env0)
           /\ hist = [Hist0 EXCEPT !.sent = {p \in UNION {OwnIn(m) : m \in Bcasts(o.out)} : p.t \in Kinds},
                                   !.evs = IF Emit THEN <<[call |-> "Start", arg |-> [ts |-> Ledger.tipTs], env |-> Env0, cfg |-> Cfg]>> ELSE <<>>]
 
-Step(c, env) == \E o \in Node!Api(x, c.call, c.arg, env) :
+Flip(c, env) == /\ x' = [x EXCEPT !.cfg.watch = TRUE, !.watch = TRUE]
+                /\ hist' = [hist EXCEPT !.evs = IF Emit THEN Append(@, [call |-> c.call, arg |-> c.arg, env |-> env]) ELSE <<>>]
+Step(c, env) == IF c.call = "SetWatch" THEN Flip(c, env) ELSE
+                \E o \in Node!Api(x, c.call, c.arg, env) :
                    /\ Strip(o) # x \/ o.out # <<>>          \* skip pure no-ops: they add no behaviour
                    /\ x' = Strip(o)
                    /\ hist' = NextHist(o, [call |-> c.call, arg |-> c.arg, env |-> env])
@@ -174,7 +180,8 @@ OneProposalPerView == \A a, b \in Own("PrepareRequest") : a.v = b.v => a = b
 OneResponsePerView == \A a, b \in Own("PrepareResponse") : a.v = b.v => a = b
 OneCommit == Cardinality({[v |-> p.v, s |-> p.s, b |-> p.b] : p \in Own("Commit")}) <= 1
 OnePreCommit == Cardinality({[v |-> p.v, s |-> p.s, b |-> p.b] : p \in Own("PreCommit")}) <= 1
-CommitLock == [][(Own("Commit") \cup Own("PreCommit") # {} /\ x'.h = x.h) => (x'.v = x.v /\ Own("ChangeView")' = Own("ChangeView"))]_vars
+\* (a validator demoted to watch-only afterwards is an observer: it may follow the others' views, silently)
+CommitLock == [][(Own("Commit") \cup Own("PreCommit") # {} /\ x'.h = x.h /\ ~x'.watch) => (x'.v = x.v /\ Own("ChangeView")' = Own("ChangeView"))]_vars
 \* C04: whenever the node holds its own commit (pre-commit) of the current view, it holds the proposal and M matching preparations
 ReqPh == x.prep[x.primary + 1].ph
 Matching == {i \in 1..x.n : x.prep[i].k \in {"req", "resp"} /\ x.prep[i].v = x.v /\ x.prep[i].ph = ReqPh}
@@ -209,7 +216,9 @@ AmevOff == ~x.amev => (Own("PreCommit") = {} /\ hist.npre = 0 /\ \A i \in 1..x.n
 \* C10
 TimerOK == (~x.watch /\ ~x.blockDone) => (x.timer.k = "t" /\ x.timer.h = x.h /\ x.timer.v = x.v /\ x.timer.d >= 0)
 \* C13
-Silent == x.watch => hist.sent = {}
+Silent == (x.watch /\ "flip" \notin Family) => hist.sent = {}
+\* ... and from the moment the flag is set (family "flip"): nothing more is made visible
+SilentStep == [][x.watch => hist'.sent = hist.sent]_vars
 \* C11 / C06
 HeldTxsBelong == x.have \subseteq Node!Range(x.txs)
 PrimaryOK == x.primary = (x.h - x.v) % x.n
